@@ -77,8 +77,14 @@ namespace sqf::runtime
                 }
             }
         }
-        void push_frame(sqf::runtime::frame frame)
+        /// Pushes a frame. Code runs in the namespace of the frame it got started from;
+        /// only `with <namespace> do` brings a namespace of its own (own_namespace = true).
+        void push_frame(sqf::runtime::frame frame, bool own_namespace = false)
         {
+            if (!own_namespace && !m_frames.empty())
+            {
+                frame.globals_value_scope(m_frames.back().globals_value_scope());
+            }
             m_frames.push_back(frame);
             m_frames.back().value_stack_pos(m_values.size());
 #ifdef DF__SQF_RUNTIME__ASSEMBLY_DEBUG_ON_EXECUTE
